@@ -568,11 +568,15 @@ class Bits:
     def _setbitarray(self, ba: bitarray.bitarray, length: Optional[int], offset: Optional[int]) -> None:
         if offset is None:
             offset = 0
+        if offset < 0:
+            raise bitstring.CreationError(f"Can't use a negative offset ({offset}).")
         if offset > len(ba):
             raise bitstring.CreationError(f"Offset of {offset} too large for bitarray of length {len(ba)}.")
         if length is None:
             self._bitstore = BitStore(ba[offset:])
         else:
+            if length < 0:
+                raise bitstring.CreationError(f"Can't create bitstring of negative length {length}.")
             if offset + length > len(ba):
                 raise bitstring.CreationError(
                     f"Offset of {offset} and length of {length} too large for bitarray of length {len(ba)}.")
@@ -620,10 +624,16 @@ class Bits:
         data = bytearray(data)
         if offset is None:
             offset = 0
+        if offset < 0:
+            raise bitstring.CreationError(f"Can't use a negative offset ({offset}).")
         if length is None:
             # Use to the end of the data
             length = len(data) * 8 - offset
+            if length < 0:
+                raise bitstring.CreationError(f"The offset of {offset} bits is greater than the data length ({len(data) * 8} bits).")
         else:
+            if length < 0:
+                raise bitstring.CreationError(f"Can't create bitstring of negative length {length}.")
             if length + offset > len(data) * 8:
                 raise bitstring.CreationError(f"Not enough data present. Need {length + offset} bits, have {len(data) * 8}.")
         self._bitstore = BitStore.frombytes(data).getslice_msb0(offset, offset + length)
